@@ -1,2 +1,102 @@
--- stub: replaced by the C06 driver
-def main : IO Unit := pure ()
+/-
+  Driver.C06 — replays observed scenarios of the one-way TCP client on the CodeModel
+  Golib.Tcp.Model (trace inclusion).
+
+  One line per scenario:
+
+      S <useQueue 0|1> <cap> <bgLocked 0|1> <ev>;<ev>;…
+
+  events (sends are numbered 0,1,2,… in the order of their d/q events; `len` is the length of
+  the send's frame — the harness scales real lengths down, the structure is what is compared):
+
+      d,<t>,<len>,<ok|connect|write|flush>     direct Send by thread t with that outcome
+      q,<t>,<len>,<ok|fail>                    SendFlush in queue mode (Put true / "Enqueue Failed")
+      p,<ok|fail>                              process() takes the queue head, sends, flushes
+      b,<ok|fail>                              Connect at the top of process()'s loop / initial Connect
+      x,<c>,<n>                                the peer closes connection c having received n bytes
+
+  Every event is expanded (Golib.Tcp.Exec.expand) into the atomic actions of the model's program
+  and executed with `Tcp.run`; a failing guard rejects the scenario.
+
+  answer:   ok <c0>|<c1>|…  r=<results>
+              ci      = what connection i carried according to the model, run-length encoded
+                        `sid*count,sid*count,…`  (`-` if nothing)
+              results = `1`/`0` per send id (Send returned nil / an error), `-` if still unknown
+            reject <event index> <event text>
+-/
+import Golib.Tcp.Exec
+import Driver.Common
+
+open Tcp Drv
+
+def parseOutcome : String → Option Outcome
+  | "ok" => some .ok
+  | "connect" => some .connect
+  | "write" => some .write
+  | "flush" => some .flush
+  | _ => none
+
+def parseOk : String → Option Bool
+  | "ok" => some true
+  | "fail" => some false
+  | _ => none
+
+/-- event and, for sends, the frame length -/
+def parseEv (s : String) : Option (Ev × Option Nat) :=
+  match s.splitOn "," with
+  | ["d", t, len, o] => do
+    let t ← parseNat t; let len ← parseNat len; let o ← parseOutcome o
+    pure (.direct t o, some len)
+  | ["q", t, len, o] => do
+    let t ← parseNat t; let len ← parseNat len; let o ← parseOk o
+    pure (.enq t o, some len)
+  | ["p", o] => do let o ← parseOk o; pure (.proc o, none)
+  | ["b", o] => do let o ← parseOk o; pure (.bg o, none)
+  | ["x", c, n] => do let c ← parseNat c; let n ← parseNat n; pure (.peerClose c n, none)
+  | _ => none
+
+/-- run-length encoding of a byte list given newest-first -/
+def rleRev (revBytes : Bytes) : List (Nat × Nat) :=
+  revBytes.foldl (fun acc b =>
+    match acc with
+    | (b', n) :: r => if b' = b then (b', n + 1) :: r else (b, 1) :: acc
+    | [] => [(b, 1)]) []
+
+def showConn (s : St) (c : Nat) : String :=
+  let runs := rleRev (s.sentRev.get c)
+  if runs.isEmpty then "-" else ",".intercalate (runs.map (fun (b, n) => s!"{b}*{n}"))
+
+def showResults (s : St) (n : Nat) : String :=
+  if n = 0 then "-" else
+  let arr := s.results.foldl (fun (a : Array Char) (sid, ok) => if sid < a.size then a.set! sid (if ok then '1' else '0') else a)
+    (Array.replicate n '-')
+  String.ofList arr.toList
+
+def replay (cfg : Cfg) (evs : Array (Ev × Option Nat)) (texts : Array String) : String := Id.run do
+  let lens : Array Nat := evs.foldl (fun a (_, l) => match l with | some l => a.push l | none => a) #[]
+  let lenOf := fun sid => lens.getD sid 1
+  let bytesOf := fun sid => List.replicate (lenOf sid) sid
+  let mut s : St := init
+  let mut i := 0
+  for (ev, _) in evs do
+    match run cfg bytesOf (expand cfg lenOf s ev) s with
+    | some s' => s := s'
+    | none => return s!"reject {i} {texts.getD i "?"}"
+    i := i + 1
+  let conns := (List.range s.next).map (showConn s)
+  return s!"ok {if conns.isEmpty then "-" else "|".intercalate conns} r={showResults s lens.size}"
+
+def answer (line : String) : String :=
+  match line.splitOn " " with
+  | ["S", q, cap, bgl, evs] =>
+    match parseNat cap with
+    | some cap =>
+      let cfg : Cfg := { useQueue := q == "1", cap := cap, sendLocked := true, bgLocked := bgl == "1" }
+      let texts := if evs == "-" then #[] else (evs.splitOn ";").toArray
+      match texts.mapM parseEv with
+      | some es => replay cfg es texts
+      | none => "bad-event"
+    | none => "bad-line"
+  | _ => "bad-line"
+
+def main : IO Unit := statelessLoop answer
